@@ -7,7 +7,7 @@ from vp_common import Atom, Ctx, line, run_driver
 
 PROP = 'C15'
 RULE = ('update streams of (item, weight 0..50) over ints, strings and mixed int+string item sets (strings spelling the ints, NUL / '
-        'space suffixes), fed by add or (40%) by one batch_add; depth 1..8, width mostly 1..8 (forced collisions) '
+        'space suffixes), fed by add or (40%) by one batch_add, or (20% of the cases) by an interleaving of add / batch_add / query steps whose every answer is judged against the weight added so far; depth 1..8, width mostly 1..8 (forced collisions) '
         'and up to 2^15; fresh numpy seeds; matrix + all queries compared after random prefixes. Counter: item streams '
         'with bounds 0..10. Non-trivial = stream with >=2 distinct items that collide in at least one row (cms) / '
         'stream that reaches the bound (counter); distinct = distinct (shape, stream).')
@@ -43,6 +43,68 @@ def gen_cms(rng, thorough):
             'batch': batch, 'kind': kind}
 
 
+def gen_mixed(rng, thorough):
+    """one sketch driven by an interleaving of add / batch_add / query: every answer must bound the weight added SO FAR"""
+    c = gen_cms(rng, thorough)
+    items = c['items']
+    steps = []
+    for _ in range(rng.choice([3, 6, 12, 30])):
+        u = rng.random()
+        if u < 0.4:
+            steps.append(['add', rng.randrange(len(items)), rng.choice([0, 1, 1, 2, 7])])
+        elif u < 0.65:
+            steps.append(['batch', [rng.randrange(len(items)) for _ in range(rng.randint(0, 6))], rng.choice([1, 1, 3])])
+        else:
+            steps.append(['query', rng.randrange(len(items))])
+    return {'t': 'mixed', 'depth': c['depth'], 'width': c['width'], 'items': items, 'steps': steps, 'npseed': c['npseed'], 'kind': c['kind']}
+
+
+def run_mixed(c):
+    import numpy as np
+    from outrank.algorithms.sketches.counting_cms import CountMinSketch
+    np.random.seed(c['npseed'])
+    s = CountMinSketch(c['depth'], c['width'])
+    items = c['items']
+    true = [0] * len(items)
+    total = 0
+    log = []
+    for st in c['steps']:
+        if st[0] == 'add':
+            s.add(items[st[1]], st[2]); true[st[1]] += st[2]; total += st[2]
+        elif st[0] == 'batch':
+            s.batch_add([items[i] for i in st[1]], st[2])
+            for i in st[1]:
+                true[i] += st[2]
+            total += st[2] * len(st[1])
+        else:
+            log.append([st[1], int(s.query(items[st[1]])), true[st[1]], total])
+    final = [[i, int(s.query(items[i])), true[i], total] for i in range(len(items))]
+    rows = [int(sum(int(v) for v in row)) for row in s.get_matrix()]
+    return {'log': log, 'final': final, 'rows': rows, 'total': total}
+
+
+def eval_mixed(ctx: Ctx, cases):
+    for c in cases:
+        r = run_mixed(c)
+        ctx.evaluations += 1
+        ctx.count('type:mixed')
+        ctx.count('items:' + c.get('kind', 'corpus'))
+        if any(st[0] == 'query' for st in c['steps'][:-1]) and any(st[0] == 'batch' for st in c['steps']):
+            ctx.nontrivial.add(repr(('mixed', c['depth'], c['width'], c['steps'])))
+        bad = None
+        for when, recs in (('mid-stream', r['log']), ('final', r['final'])):
+            for i, q, tw, tot in recs:
+                if not (tw <= q <= tot):
+                    bad = f'{when} query of item {c["items"][i]!r} = {q}, but its accumulated weight so far is {tw} and the total added is {tot}'
+                    break
+            if bad:
+                break
+        if bad is None and any(x != r['total'] for x in r['rows']):
+            bad = f'row sums {r["rows"]} != total weight {r["total"]}'
+        if bad:
+            ctx.oracle_fail('cms-interleaved', f'depth={c["depth"]} width={c["width"]} steps={c["steps"][:8]}{"…" if len(c["steps"]) > 8 else ""}: {bad}', c)
+
+
 def gen_ctr(rng, thorough):
     bound = rng.randint(0, 10)
     nvals = rng.randint(1, 14)
@@ -76,6 +138,8 @@ def run_impl(c):
 
 
 def evaluate(ctx: Ctx, cases, oracle_only=False):
+    eval_mixed(ctx, [c for c in cases if c['t'] == 'mixed'])
+    cases = [c for c in cases if c['t'] != 'mixed']
     impl = [run_impl(c) for c in cases]
     req = []
     for c, r in zip(cases, impl):
@@ -129,13 +193,16 @@ def corpus():
     return [
         {'t': 'cms', 'depth': 2, 'width': 2, 'items': [0, 1], 'ops': [(0, 3), (1, 1), (0, 2)], 'npseed': 1, 'batch': False},
         {'t': 'cms', 'depth': 1, 'width': 1, 'items': ['a', 'b', ''], 'ops': [(0, 1), (1, 5), (2, 0)], 'npseed': 2, 'batch': False},
+        {'t': 'mixed', 'depth': 4, 'width': 1024, 'items': ['a'], 'steps': [['add', 0, 1], ['query', 0], ['batch', [0, 0, 0, 0, 0], 1], ['query', 0]],
+         'npseed': 0, 'kind': 'str'},
         {'t': 'ctr', 'bound': 2, 'vals': [5, 5, 7, 5, 9, 9]},
         {'t': 'ctr', 'bound': 0, 'vals': [1, 2]},
     ]
 
 
 def gen(rng, thorough):
-    return gen_cms(rng, thorough) if rng.random() < 0.65 else gen_ctr(rng, thorough)
+    u = rng.random()
+    return gen_cms(rng, thorough) if u < 0.5 else (gen_mixed(rng, thorough) if u < 0.7 else gen_ctr(rng, thorough))
 
 
 def run(ctx: Ctx):
